@@ -110,7 +110,7 @@ func TestGrid(t *testing.T) {
 			if !env.Mine(idx) {
 				return
 			}
-			v := gridVals(b, uint64(idx)*7919+uint64(env.Seed), count, blen)
+			v := gen.SeedVals(b, uint64(idx)*7919+uint64(env.Seed), count, blen)
 			rec.NonTrivialConstructed(1)
 			rec.Class("grid")
 			eval(t, b, v)
@@ -137,74 +137,4 @@ func TestGrid(t *testing.T) {
 			rec.Exhaustive("body length 0..255 for " + s.ID())
 		}
 	}
-}
-
-// gridVals builds a well-formed assignment deterministically from a seed with
-// the requested destination count and body length.
-func gridVals(b *gen.Binding, seed uint64, count, blen int) *ref.Vals {
-	sm := vk.SplitMix(seed)
-	s := b.Spec
-	v := ref.NewVals()
-	v.Cmd = b.LibCmd
-	v.Status = uint32(sm.Next())
-	v.Seq = [3]uint32{uint32(sm.Next()), uint32(sm.Next()), uint32(sm.Next())}
-	text := func(max int) []byte {
-		n := sm.Intn(max + 1)
-		out := make([]byte, n)
-		for i := range out {
-			out[i] = byte(1 + sm.Intn(255))
-		}
-		return out
-	}
-	raw := func(n int) []byte {
-		out := make([]byte, n)
-		for i := range out {
-			out[i] = byte(sm.Next())
-		}
-		return out
-	}
-	for _, f := range s.Fields {
-		switch f.Kind {
-		case ref.U8:
-			v.F[f.Name] = sm.Next() & 0xff
-		case ref.U16:
-			v.F[f.Name] = sm.Next() & 0xffff
-		case ref.U32:
-			v.F[f.Name] = sm.Next() & 0xffffffff
-		case ref.U64:
-			v.F[f.Name] = sm.Next()
-		case ref.FixStr:
-			v.F[f.Name] = text(f.W)
-		case ref.CStr:
-			v.F[f.Name] = text(f.W - 1)
-		case ref.Bin, ref.HexID:
-			v.F[f.Name] = raw(f.W)
-		case ref.Count8:
-			v.F[f.Name] = uint64(count)
-			var w int
-			for _, g := range s.Fields {
-				if g.Name == f.Ref {
-					w = g.W
-				}
-			}
-			l := make([][]byte, count)
-			for i := range l {
-				l[i] = text(w)
-			}
-			v.F[f.Ref] = l
-		case ref.Len8, ref.Len32:
-			v.F[f.Name] = uint64(blen)
-			v.F[f.Ref] = raw(blen)
-		case ref.Seq3:
-			v.F[f.Name] = [3]uint32{uint32(sm.Next()), uint32(sm.Next()), uint32(sm.Next())}
-		case ref.TLVTail, ref.OptTail:
-			n := sm.Intn(3)
-			var ts []ref.Triplet
-			for i := 0; i < n; i++ {
-				ts = append(ts, ref.Triplet{Tag: uint16(0x100*(i+1)) + uint16(sm.Intn(200)), Val: raw(sm.Intn(12))})
-			}
-			v.F[f.Name] = ts
-		}
-	}
-	return v
 }
